@@ -41,7 +41,7 @@ def gen(rng):
             i, v = rng.choice(universe)
             if (i, v) in [(a, b) for a, b, _ in installed]:
                 continue
-            lang = rng.choice(['en', 'en', 'fr', 'de'])
+            lang = rng.choice(['en', 'en', 'fr', 'de', 'sr-Latn', 'sr-latn'])      # language codes are compared verbatim
             ops.append({'k': 'add', 'res': docs.resource([mini(i, v, lang)], '1.0')})
             installed.append((i, v, lang))
     ids = sorted({i for i, _, _ in installed}) or ['a']
@@ -52,8 +52,10 @@ def gen(rng):
     queries = []
     for _ in range(14):
         n = rng.choice([1, 1, 1, 2, 3])
-        spec = ' '.join(rng.sample(toks, n))
-        lang = rng.choice([None, None, None, 'en', 'fr', 'xx'])
+        # a list is separated by any white space (str.split()): blanks, tabs, line ends, also leading / trailing
+        sep = rng.choice([' ', ' ', ' ', '\t', '\n', '  ', ' \n '])
+        spec = sep.join(rng.sample(toks, n)) + rng.choice(['', '', '', '\n', ' '])
+        lang = rng.choice([None, None, None, None, 'en', 'fr', 'xx', 'EN', 'Fr', 'sr-Latn', 'sr-latn', 'SR-LATN'])
         queries.append((spec, lang))
     queries += [('*', None), (None, None), (None, 'en'), ('', None)]
     for spec, lang in queries:
